@@ -30,6 +30,7 @@ func (sp *singlePrinterWriter) GetWriter(_ *CandidateNode) (*bufio.Writer, error
 
 type multiPrintWriter struct {
 	treeNavigator  DataTreeNavigator
+	written        map[string]bool
 	nameExpression *ExpressionNode
 	extension      string
 	index          int
@@ -75,6 +76,15 @@ func (sp *multiPrintWriter) GetWriter(node *CandidateNode) (*bufio.Writer, error
 	if !extensionRegexp.MatchString(name) {
 		name = fmt.Sprintf("%v.%v", name, sp.extension)
 	}
+
+	if sp.written[name] {
+		// os.Create would empty the file an earlier result of this run was written to
+		return nil, fmt.Errorf("the split expression names the file '%v' for more than one result", name)
+	}
+	if sp.written == nil {
+		sp.written = map[string]bool{}
+	}
+	sp.written[name] = true
 
 	err = os.MkdirAll(filepath.Dir(name), 0750)
 	if err != nil {
